@@ -14,7 +14,7 @@ TRUSTED = ["tokio::sync::mpsc unbounded channel is FIFO per channel and lossless
 ASSUMPTIONS = ["handler order = queue order relies on C01 (one handler at a time) and on the single consumer shown here"]
 
 DOC = {
- "C02.R1": "who-may: user-message sender methods are called only by the typed send, the serialized send and the marker emitter; receiver methods only by the priority listen and ActorPortSet::drop",
+ "C02.R1": "who-may: user-message sender methods are called only by the typed send, the serialized send and the marker emitter; receiver methods only by the priority listen and ActorPortSet::drop; a select arm that wraps a port receive in a future of its own does not suspend again after the receive completed (cancel safety of the priority select)",
  "C02.R2": "hand-back: every SendErr built in the send bodies / their error closures carries the message parameter or the payload of the channel's SendError (through from_boxed / serialized_msg)",
  "C02.R3": "the enqueue is unique per send body, not in a cycle, and the Ok(()) return is reachable only through it",
  "C02.R4": "= C07.R5: status gate < admission < enqueue, ticket alive across the enqueue",
